@@ -263,10 +263,10 @@ class ExplorerScriptSsbCompiler:
         """
         fs: list[str] = []
         for import_file in self.imports:
-            if import_file.startswith(".") or import_file.startswith("/"):
+            if import_file.startswith("./") or import_file.startswith("../") or import_file.startswith("/"):
                 # Relative or absolute import
                 abs_path = os.path.realpath(str(PurePath(PurePosixPath(dir_name).joinpath(PurePosixPath(import_file)))))
-                if not os.path.exists(abs_path):
+                if not os.path.isfile(abs_path):
                     raise SsbCompilerError(f(_("The file to import ('{import_file}') was not found.")))
             else:
                 # Relative to one of the lookup paths
@@ -285,7 +285,7 @@ class ExplorerScriptSsbCompiler:
                     abs_path_c = os.path.realpath(
                         str(PurePath(dir_name).joinpath(PurePosixPath(lp).joinpath(import_file)))
                     )
-                    if os.path.exists(abs_path_c):
+                    if os.path.isfile(abs_path_c):
                         abs_path = abs_path_c
                         break
                 if abs_path is None:
